@@ -72,22 +72,35 @@ def _run(cmd, cwd=None):
     return r.stdout
 
 
-def _prune(keep):
+def _mtime(p):
     try:
-        ents = [os.path.join(BUILD_ROOT, d) for d in os.listdir(BUILD_ROOT)]
-    except FileNotFoundError:
+        return os.path.getmtime(p)
+    except OSError:          # removed or renamed by a concurrent process
+        return None
+
+
+def _prune(keep):
+    """best effort; other processes create, rename and remove directories here at the same time"""
+    try:
+        names = os.listdir(BUILD_ROOT)
+    except OSError:
         return
-    ents = [e for e in ents if os.path.isdir(e) and not os.path.basename(e).startswith("tmp")
-            and os.path.basename(e) != "ansic"]
-    ents.sort(key=lambda e: os.path.getmtime(e), reverse=True)
-    for e in ents[keep:]:
-        # never remove something a concurrent check may be executing
-        if time.time() - os.path.getmtime(e) > 1800:
-            shutil.rmtree(e, ignore_errors=True)
-    # stale temp dirs (older than 1h)
-    for d in os.listdir(BUILD_ROOT):
+    now = time.time()
+    ents = []
+    for d in names:
         p = os.path.join(BUILD_ROOT, d)
-        if d.startswith("tmp") and time.time() - os.path.getmtime(p) > 3600:
+        m = _mtime(p)
+        if m is None or not os.path.isdir(p) or d == "ansic":
+            continue
+        if d.startswith("tmp"):
+            if now - m > 3600:               # stale temp dir
+                shutil.rmtree(p, ignore_errors=True)
+            continue
+        ents.append((m, p))
+    ents.sort(reverse=True)
+    for m, p in ents[keep:]:
+        # never remove something a concurrent check may be executing
+        if now - m > 1800:
             shutil.rmtree(p, ignore_errors=True)
 
 
